@@ -1,6 +1,8 @@
 package main
 
 import (
+	"strings"
+
 	"verifharness/internal/vlib"
 )
 
@@ -24,7 +26,17 @@ func genCond(rng *vlib.Rand, depth int) *Cond {
 			return &Cond{Op: "or", Kids: []Cond{*genCond(rng, depth-1), *genCond(rng, depth-1)}}
 		}
 	}
-	switch rng.Intn(8) {
+	switch rng.Intn(13) {
+	case 8:
+		return &Cond{Op: "state", S: vlib.Pick(rng, tags...)}
+	case 9:
+		return &Cond{Op: "flag", N: rng.Intn(2)}
+	case 10:
+		return &Cond{Op: "level", N: rng.Intn(9)}
+	case 11:
+		return &Cond{Op: "ratio", N: rng.Intn(100)}
+	case 12:
+		return genInCond(rng, rng.Range(2, 30))
 	case 0:
 		return &Cond{Op: "gt", N: rng.Intn(100)}
 	case 1:
@@ -75,6 +87,7 @@ func genBackend(rng *vlib.Rand, sc *Scenario) {
 		sc.InjectLate = rng.Bool()
 	default:
 		sc.Backend = "injmap"
+		sc.Reentrant = rng.Bool()
 	}
 }
 
@@ -481,4 +494,15 @@ func genHooks(rng *vlib.Rand, id int) Scenario {
 		sc.Hooks = append(sc.Hooks, hs)
 	}
 	return sc
+}
+
+// genInCond: Tag in (<1-3 real tags>, fillers...) with n values in total.
+func genInCond(rng *vlib.Rand, n int) *Cond {
+	ts := append([]string(nil), tags...)
+	vlib.Shuffle(rng, ts)
+	k := rng.Range(1, 3)
+	if n < k {
+		n = k
+	}
+	return &Cond{Op: "in", S: strings.Join(ts[:k], ","), N: n}
 }
